@@ -2,7 +2,7 @@
 # confirm a seeded change written by a sub-agent:  tools/confirm.sh <PROP> <A|B> [checks...]
 #  1. fresh worktree: demo must pass;  2. apply patch: test suite must pass, demo must fail;  3. run my checks against it
 prop=$1; which=$2; shift; shift
-dir=/tmp/agents/$prop/out
+dir=/tmp/agents/${PREFIX}$prop/out
 patch=$dir/patch$which.diff; demo=$dir/demo$which.py
 wt=$(mktemp -d /tmp/cf_XXXXXX)
 git -C /repo worktree add --detach "$wt" HEAD -q || exit 2
